@@ -457,6 +457,16 @@ func (x *Exec) specCall(n *ast.CallExpr, env *specEnv, reach Term) Val {
 		case "mi":
 			v := x.evalSpec(n.Args[0], env, reach)
 			return Val{MI: true, L: []Term{x.toMI(v)}}
+		case "has":
+			// has(m, k): map membership
+			m := x.evalSpec(n.Args[0], env, reach)
+			mt, ok := m.T.Underlying().(*types.Map)
+			if !ok {
+				specFail("has(): first argument is not a map")
+			}
+			k := x.scalarize(x.materialize(x.evalSpec(n.Args[1], env, reach), mt.Key()))
+			_, present := x.mapRead(env.st, m.T, m.L[0], k.L[0], reach)
+			return boolV(present)
 		case "len":
 			v := x.evalSpec(n.Args[0], env, reach)
 			switch v.T.Underlying().(type) {
@@ -570,7 +580,11 @@ func (x *Exec) specCall(n *ast.CallExpr, env *specEnv, reach Term) Val {
 			if se.Sel.Name == "Error" {
 				return Val{T: types.Typ[types.String], L: []Term{x.c.App("errtext", SStr, recv.L[0], recv.L[1])}}
 			}
-			specFail("interface method call %s in spec", se.Sel.Name)
+			var iargs []Val
+			for _, a := range n.Args {
+				iargs = append(iargs, x.evalSpec(a, env, reach))
+			}
+			return x.specIfaceCall(recv, se.Sel.Name, iargs, env, reach)
 		}
 		fn := x.e.prog.MethodValue(sel)
 		return x.specInline(fn, &recv, n.Args, env, reach)
